@@ -365,6 +365,26 @@ func c10stable(c *core.Ctx) {
 		for i, si := range order {
 			if i == nsub/2 {
 				extraRemaining = nsub - i
+				// failed Unsub calls (channels already removed, a channel that never was a
+				// subscription, nil) - more of them than subscribers remain - must change nothing
+				foreign := make(chan int)
+				for k := 0; k <= extraRemaining; k++ {
+					var err error
+					want := chans.ErrAlreadyUnsubscribed
+					switch {
+					case i > 0 && k%3 != 2:
+						err = run.ps.Unsub(subs[order[k%i]].ch)
+					case k%2 == 0:
+						err = run.ps.Unsub(foreign)
+					default:
+						err = run.ps.Unsub(nil)
+						want = chans.ErrSubscriptionNotInitalized
+					}
+					if err != want {
+						c.Violate("Unsub:error-contract", fmt.Sprintf("Unsub of an already removed / unknown / nil channel returned %v, want %v", err, want), extra)
+						return
+					}
+				}
 				run.ps.PubWait(extraEv)
 			}
 			if extraRemaining < 0 {
